@@ -625,6 +625,19 @@ Theorem paradigm_roundtrip_v0_refuted : forall (V : Type) (concat_items : list (
   cat V concat_items [] = CEmpty /\ cat V concat_items [None] = COk None.
 Proof. exact paradigm_roundtrip_v0_refuted_l. Qed.
 
+(* F-C05h (fixed 57995e9): before the repair a run without streams did not pass the entries of a CHANNEL through
+   restore (streamConverter.restoreOutputs returned early; pending inputs were passed through it): the nil answer of a
+   node of output type any, folded into its successor's channel when the checkpoint is assembled mid-step (a sibling
+   asked for a rerun, a nested graph interrupted) and written as the marker, came back to a resume through Invoke as the
+   marker itself - not a value a run without streams can hold: the successor was handed a compose.nilChunk - whereas
+   restore turns it back into nil. That every wrapper reaches convert / restore on every path is now an obligation of the
+   translator tie (gen_wrappers_reach_entry, Proofs/GenAgreeC05Stream.v) *)
+Theorem paradigm_roundtrip_channel_v0_refuted : forall (V : Type) (concat_items : list (option V) -> res (option V)),
+  live V false DNil /\ (m_convert_entry V concat_items false DNil = Ok DNilChunk) /\
+  (m_restore_channel_entry_v0 V false DNilChunk = Ok DNilChunk) /\ (~ live V false DNilChunk) /\
+  (m_restore_entry V false DNilChunk = Ok DNil).
+Proof. exact paradigm_roundtrip_channel_v0_refuted_l. Qed.
+
 (* non-vacuity: the nil value written by Invoke, read by Stream; three chunks written by Stream, read by Invoke *)
 Example paradigm_roundtrip_hypotheses_hold :
   (live nat false DNil /\ den nat DNil = Some [None] /\
@@ -670,4 +683,5 @@ Print Assumptions resume_equiv_eager_serial_hypotheses_hold.
 Print Assumptions resume_equiv_eager_serial_interrupts_happen.
 Print Assumptions paradigm_roundtrip.
 Print Assumptions paradigm_roundtrip_v0_refuted.
+Print Assumptions paradigm_roundtrip_channel_v0_refuted.
 Print Assumptions paradigm_roundtrip_hypotheses_hold.
